@@ -48,8 +48,10 @@ def soc_sequences(ctx):
         elif isinstance(v, FuncTok):
             nodes = T.func_nodes(ctx, v)
             s = set()
+            helpers = {q: fis[0].node for q, fis in ctx.repo.mod(v.module).funcs.items()
+                       if '.' not in q and len(fis) == 1 and isinstance(fis[0].node, ast.FunctionDef)}
             for n in nodes:
-                s |= T.flows_into(n, 'children')
+                s |= T.flows_into(n, 'children', helpers=helpers)
             out[c] = ('set', s, v)
         else:
             raise AnalysisError(f'_SYNTAX_ORDERED_CHILDREN[{c.name}] is not a function: {v!r}')
@@ -558,6 +560,60 @@ def check_mirror(ctx, rid, fi, depth=0):
 
 # ---- R14.3 -----------------------------------------------------------------------------------------------------------
 
+def filter_callable_names(ctx) -> set:
+    """Names (locals, parameters, attributes) that hold the caller's `all` filter as a callable in fst_traverse: what `_all_param_func(all)`
+    returned, followed through assignments (`self.X = X`, `X = self.X`) and through arguments handed to functions / classes of the module
+    (today all of them are called `check_all_param`)."""
+    from ..model import call_name
+    m = ctx.repo.mod('fst_traverse')
+    makers = {fi.name for fi in ctx.repo.funcs('fst_traverse', '_all_param_func')}
+    if not makers:
+        raise AnalysisError('_all_param_func not found (anchor vanished)')
+    names = set()
+
+    def nm(e):
+        return e.id if isinstance(e, ast.Name) else e.attr if isinstance(e, ast.Attribute) else None
+
+    def holds(e):
+        return (isinstance(e, ast.Call) and call_name(e) in makers) or nm(e) in names
+    params_of = {}
+    for q, fis in m.funcs.items():
+        for fi in fis:
+            if isinstance(fi.node, ast.Lambda):
+                continue
+            a = fi.node.args
+            ps = [x.arg for x in a.posonlyargs + a.args]
+            owner = q.rsplit('.', 1)[0] if '.' in q else None
+            if ps[:1] in (['self'], ['cls']):
+                ps = ps[1:]
+            params_of.setdefault(fi.name, []).append((ps, {x.arg for x in a.kwonlyargs} | set(ps)))
+            if fi.name == '__init__' and owner:
+                params_of.setdefault(owner, []).append((ps, {x.arg for x in a.kwonlyargs} | set(ps)))
+    changed = True
+    while changed:
+        changed = False
+        for x in ast.walk(m.tree):
+            if isinstance(x, ast.Assign) and holds(x.value):
+                for t in x.targets:
+                    if nm(t) and nm(t) not in names:
+                        names.add(nm(t))
+                        changed = True
+            elif isinstance(x, ast.Call) and call_name(x) in params_of:
+                for ps, allp in params_of[call_name(x)]:
+                    for i, a in enumerate(x.args):
+                        if holds(a) and i < len(ps) and ps[i] not in names:
+                            names.add(ps[i])
+                            changed = True
+                    for kw in x.keywords:
+                        if kw.arg and holds(kw.value) and kw.arg in allp and kw.arg not in names:
+                            names.add(kw.arg)
+                            changed = True
+    if not names:
+        raise AnalysisError('the value of _all_param_func() is bound to no name (anchor vanished)')
+    ctx.extra['filter_callable_names'] = sorted(names)
+    return names
+
+
 def check_filter_discipline(ctx):
     """Every node that walk() hands to the caller (directly, `yield <node>` / `yield (<node>, flag)`) has passed the caller's `all` filter
     on the path that leads to the yield: forward must-analysis of "check_all_param(<name>) evaluated true and <name> not rebound since"."""
@@ -565,7 +621,16 @@ def check_filter_discipline(ctx):
     from ..model import walk_no_nested, call_name
     ctx.rule('R14.3', 'walk(): every directly yielded node passed check_all_param() on the path to the yield (enter, leave and both agree on what '
                       'the filter lets through)', 5)
-    for fi in ctx.repo.funcs('fst_traverse', 'walk'):
+    filt = filter_callable_names(ctx)
+    targets = list(ctx.repo.funcs('fst_traverse', 'walk'))
+    # walk() as a thin wrapper: the private generators of the module it delegates to with `yield from` while handing them the filter
+    for fi in list(targets):
+        for x in walk_no_nested(fi.node):
+            if isinstance(x, ast.YieldFrom) and isinstance(x.value, ast.Call) and isinstance(x.value.func, ast.Name) and \
+                    any((isinstance(a, ast.Name) and a.id in filt) for a in list(x.value.args) + [k.value for k in x.value.keywords]):
+                targets += [w for w in ctx.repo.funcs('fst_traverse', x.value.func.id) if w not in targets]
+    n = 0
+    for fi in targets:
         fn = fi.node
         cfg = CFG(fn)
         def carried(v):
@@ -591,7 +656,7 @@ def check_filter_discipline(ctx):
             def facts(e, truth):
                 if isinstance(e, ast.UnaryOp) and isinstance(e.op, ast.Not):
                     return facts(e.operand, not truth)
-                if isinstance(e, ast.Call) and call_name(e) == 'check_all_param' and e.args and isinstance(e.args[0], ast.Name):
+                if isinstance(e, ast.Call) and call_name(e) in filt and e.args and isinstance(e.args[0], ast.Name):
                     return {e.args[0].id} if truth else set()
                 if isinstance(e, ast.BoolOp):
                     if (isinstance(e.op, ast.And) and truth) or (isinstance(e.op, ast.Or) and not truth):
@@ -631,7 +696,6 @@ def check_filter_discipline(ctx):
             return out
 
         ins = solve(cfg, frozenset(), transfer, lambda a_, b_: a_ & b_)
-        n = 0
         for nd in cfg.nodes:
             st = ins.get(nd.id)
             if st is None:
@@ -652,8 +716,8 @@ def check_filter_discipline(ctx):
                               f'`{name}` is handed to the caller on a path on which check_all_param({name}) was not (or no longer) known to hold: a node '
                               f'the `all` filter rejects is yielded (e.g. the walk root on leaving, while it was not yielded on entering)', x.lineno,
                               sample={'function': fi.key, 'yield': norm(v), 'checked_here': sorted(f[1] for f in st if f[0] == 'ok')})
-        if n < 5:
-            raise AnalysisError(f'walk(): only {n} direct yields found')
+    if n < 5:
+        raise AnalysisError(f'walk(): only {n} direct yields found')
 
 
 # ---- R14.4 / R14.5 -----------------------------------------------------------------------------------------------------
